@@ -174,6 +174,9 @@ func c13Letters(mode string) map[string]httpReq {
 
 func c13Body(c *ev.Ctx) {
 	quick := c.Quick()
+	if err := schedSelfTest(); err != nil {
+		c.HarnessError("scheduler self-test: %v", err)
+	}
 	type job struct {
 		mode    string
 		letters []string
